@@ -34,22 +34,8 @@ class ErrorHandling:
 
     def error_location(self):
 
-        # restore query text
-        lines_idx = defaultdict(str)
-
-        # used + unused tokens
-        for token in self.tokens:
-            if token is None:
-                continue
-            line = lines_idx[token.lineno]
-
-            if len(line) > token.index:
-                line = line[: token.index]
-            else:
-                line = line.ljust(token.index)
-
-            line += token.value
-            lines_idx[token.lineno] = line
+        # show the query text as it was written (token values are rewritten by the lexer)
+        text = self.lexer.text
 
         msgs = []
 
@@ -57,35 +43,27 @@ class ErrorHandling:
         if self.bad_token is None:
             msgs.append('Syntax error, unexpected end of query:')
             error_len = 1
-            # last line
-            error_line_num = list(lines_idx.keys())[-1]
-            error_index = len(lines_idx[error_line_num])
+            error_pos = self.tokens[-1].end
         else:
             msgs.append('Syntax error, unknown input:')
-            error_len = len(self.bad_token.value)
-            error_line_num = self.bad_token.lineno
-            error_index = self.bad_token.index
+            error_len = max(self.bad_token.end - self.bad_token.index, 1)
+            error_pos = self.bad_token.index
 
-        # shift lines indexes (it removes spaces from beginnings of the lines)
-        lines = []
-        shift = 0
-        error_line = 0
-        for i, line_num in enumerate(lines_idx.keys()):
-            if line_num == error_line_num:
-                error_index -= shift
-                error_line = i
+        line_start = text.rfind('\n', 0, error_pos) + 1
+        line_end = text.find('\n', error_pos)
+        if line_end == -1:
+            line_end = len(text)
 
-            line = lines_idx[line_num]
-            lines.append(line[shift:])
-            shift = len(line)
+        if self.bad_token is not None:
+            # a token that spans lines is marked on its first line
+            error_len = max(min(self.bad_token.end, line_end) - error_pos, 1)
 
-        # add source code
-        first_line = error_line - 2 if error_line > 1 else 0
-        for line in lines[first_line: error_line + 1]:
+        # add source code: the line with the error and up to two lines before it
+        for line in text[:line_end].split('\n')[-3:]:
             msgs.append('>' + line)
 
         # error position
-        msgs.append('-' * (error_index + 1) + '^' * error_len)
+        msgs.append('-' * (error_pos - line_start + 1) + '^' * error_len)
         return msgs
 
     def make_suggestion(self):
